@@ -258,4 +258,108 @@ def Spec.run (answer : Handle → SendResult) : Spec → List Op → Spec × Lis
 /-- Abstraction map: forget the forward map (it is redundant under the invariant). -/
 def abs (s : State) : Spec := s.peers.map (fun e => ⟨e.1, e.2, (lookup e.1 s.index).getD []⟩)
 
+/-! ### the rest of the public surface of `src/peer.rs`
+
+`NotifyBody` and its format tag, the four `broadcast_notify_*` entry points (encode once, then
+`broadcast_each`), `PeerHandle`'s forwarding methods, `PeerRegistry::{peers, is_empty, next_peer_id}`,
+`CallContext`. -/
+
+/-- `BodyFormat` discriminants (`src/constants.rs`). -/
+def fmtRawBinary : Nat := 0
+def fmtBeve : Nat := 1
+def fmtJson : Nat := 2
+def fmtUtf8 : Nat := 3
+
+/-- `NotifyBody` (a `Utf8` body is modelled by its UTF-8 bytes). -/
+inductive NotifyBody where
+  | beve (b : Bytes)
+  | json (b : Bytes)
+  | utf8 (b : Bytes)
+  | raw (b : Bytes) (fmt : Nat)
+  deriving DecidableEq, Repr
+
+/-- `NotifyBody::body_format` -/
+def NotifyBody.bodyFormat : NotifyBody → Nat
+  | .beve _ => fmtBeve
+  | .json _ => fmtJson
+  | .utf8 _ => fmtUtf8
+  | .raw _ f => f
+
+/-- `NotifyBody::as_bytes` / `into_bytes` -/
+def NotifyBody.bytes : NotifyBody → Bytes
+  | .beve b => b
+  | .json b => b
+  | .utf8 b => b
+  | .raw b _ => b
+
+/-- Which public helper is called. -/
+inductive Helper where
+  | json | beve | utf8 | raw (fmt : Nat)
+  deriving DecidableEq, Repr
+
+/-- The `NotifyBody` the helper's closure builds for each peer from the once-encoded bytes
+(`clone_with_prefix_room` only affects the capacity of the copy, not its contents). -/
+def Helper.body : Helper → Bytes → NotifyBody
+  | .json, b => .json b
+  | .beve, b => .beve b
+  | .utf8, b => .utf8 b
+  | .raw f, b => .raw b f
+
+/-- `broadcast_notify_{json,beve,utf8,raw}`.  `encoded` is what the encoder returned
+(`serde_json::to_vec(body)?` / `beve::to_vec(body)?`; the text / raw bytes themselves for `utf8` / `raw`,
+which cannot fail): on an encoder error the helper returns `Err` before anything is sent. -/
+def broadcastNotify (s : State) (hlp : Helper) (path : String) (encoded : Option Bytes)
+    (answer : Handle → SendResult) : Option (List Delivery × List (Nat × SendResult)) :=
+  match encoded with
+  | none => none
+  | some b => some (broadcast s path (hlp.body b).bodyFormat (hlp.body b).bytes answer)
+
+/-- `PeerHandle::send_notify`: forwards to the sink. -/
+def Handle.sendNotify (answer : Handle → SendResult) (h : Handle) (path : String) (nb : NotifyBody) :
+    Delivery × SendResult :=
+  (⟨h, path, nb.bodyFormat, nb.bytes⟩, answer h)
+
+/-- `PeerHandle::is_connected`: forwards to the sink. -/
+def Handle.isConnected (connected : Handle → Bool) (h : Handle) : Bool := connected h
+
+/-- `PeerRegistry::is_empty` -/
+def isEmpty (s : State) : Bool := s.peers.isEmpty
+
+/-- `PeerRegistry::next_peer_id`: `fetch_add(1)` on the counter shared by every clone of the registry
+(and adopted by every `WebSocketServer` wired to it). Returns (new counter, minted id). -/
+def nextPeerId (counter : Nat) : Nat × Nat := ((counter + 1) % U64, counter)
+
+/-- the `debug_assert!(value != PeerId::DETACHED.0)` tripwire -/
+def nextPeerIdPanics (counter : Nat) (debugAssertions : Bool) : Bool :=
+  debugAssertions && counter == U64 - 1
+
+/-- `n` consecutive mints. -/
+def mintN : Nat → Nat → List Nat
+  | _, 0 => []
+  | c, n + 1 => (nextPeerId c).2 :: mintN (nextPeerId c).1 n
+
+/-- `CallContext` (the cancel signal is `pub(crate)`: only the WebSocket server attaches one). -/
+structure CallContext where
+  method : String
+  peer : Option Handle
+  cancel : Option Bool      -- `Some(signal)`: has the signal fired?
+  deriving DecidableEq, Repr
+
+def CallContext.new (m : String) (p : Handle) : CallContext := ⟨m, some p, none⟩
+def CallContext.detached (m : String) : CallContext := ⟨m, none, none⟩
+def CallContext.withCancel (m : String) (p : Handle) (fired : Bool) : CallContext := ⟨m, some p, some fired⟩
+
+/-- `CallContext::is_cancelled`: `self.cancel.is_some_and(|c| c.is_cancelled())` -/
+def CallContext.isCancelled (c : CallContext) : Bool :=
+  match c.cancel with
+  | some fired => fired
+  | none => false
+
+/-- Does the future returned by `CallContext::cancelled` resolve?  With no signal attached it is
+`std::future::pending()`. -/
+def CallContext.cancelledResolves (c : CallContext) : Bool :=
+  match c.cancel with
+  | some fired => fired
+  | none => false
+
 end Repe.Peers
